@@ -184,6 +184,7 @@ class PipelineRun:
         kw.setdefault("processor", cfg.get("processor", "threaded_mailbox"))
         kw.setdefault("max_workers", cfg.get("max_workers", 1))
         kw.setdefault("progress_bar", False)
+        kw.setdefault("multi_run_progress_bar", False)
         out = []
         for c in ctx.get_iter(self.run_id, targets, **kw):
             out.append((c.start, c.end, c.data.copy(), c.subruns))
